@@ -60,6 +60,13 @@ CHECKS["C04"] = dict(
     note="Trusted: the UFL algorithms FFCx itself requests for expressions (algebra lowering, derivatives, pull-backs, geometry lowering), basix.",
     design="5/C04",
 )
+CHECKS["C09"] = dict(
+    category="exploration",
+    technique="Hypothesis complex-aware grammar forms compiled for all four scalar types; differential against the reference evaluator per type (real and complex data) + pairwise metamorphic agreement at the narrower type's round-off",
+    text="Each generated form (cell/exterior/interior facet integrals, conj/real/imag, complex literals, math functions, sesquilinear inner products) is compiled for float32, float64, complex64, complex128. On real data all four kernels must equal the reference for their type and agree pairwise within the narrower type's propagated bound; on complex data the complex kernels must equal the reference run in complex arithmetic on UFL's complex-mode lowering. Sampling over forms and data.",
+    note="Trusted: UFL complex_mode lowering (sesquilinear convention), numpy complex arithmetic vs C99 complex functions on the branch-cut-free generated domain.",
+    design="5/C09",
+)
 PENDING = {}
 
 def main():
